@@ -39,7 +39,7 @@ func checkC17(c *Ctx) {
 	for _, variant := range []string{"plain", "exact"} {
 		init := []SketchInit{{variant, 1, ex0, ex0}, {variant, 1, ex0, ex0}, {variant, 2, ex0, ex0}}
 		sim := &SketchGen{Init: init, Tokens: append(append([]int{}, tokBins3...), 0, 16, 17, -16, -17), Weights: []int{1, 2, 4, 8, 12, 132},
-			Ops: []string{"Add", "AddW", "Merge", "Clear", "ChangeMap", "Copy"}, Q: 4, QDen: 8, Depth: c.pick(10, 20), Simulate: true, Num: c.pick(1500, 30000)}
+			Ops: []string{"Add", "AddW", "Merge", "Clear", "ChangeMap", "Copy"}, Q: 4, QDen: 8, Depth: c.pick(10, 20), Simulate: true, Num: c.pick(1500, 15000)}
 		c.runSketchGen(sim, mx, c.pick(8, 16), "simulated histories with mapping changes, "+variant)
 	}
 	_ = math.Pi
